@@ -345,3 +345,72 @@ Proof.
   - intros H. inversion H; subst. eapply next_counter_id_err_unchanged; eassumption.
   - intros H; inversion H.
 Qed.
+
+(* ---- the allocation seen in two halves: up to the key callback, and the rest ---- *)
+Lemma allocate_opt_via_mid t ks label s :
+  allocate_opt t ks label s = bindM (alloc_mid t ks label) (fun id => write_tail id label) s.
+Proof.
+  unfold allocate_opt, alloc_mid.
+  destruct (has_nul label); [reflexivity|].
+  destruct (zlen label >? MAXLAB); [reflexivity|].
+  destruct (key_ambiguous ks); [reflexivity|].
+  destruct (key_too_long ks); [reflexivity|].
+  unfold bindM at 1 2 3. destruct (next_counter_id s) as [[id|e|] s']; try reflexivity.
+  unfold write_record, write_head, write_tail, bindM, retM.
+  destruct (put_meta id 0 ML _ s') as [[[]|e|] s2]; try reflexivity.
+  destruct ks as [|k|k|k1 k2].
+  - reflexivity.
+  - destruct (put_meta id OFF_KEY (zlen k) _ s2) as [[[]|e|] s3]; reflexivity.
+  - unfold readM. destruct (meta_access s2 id OFF_KEY MAXKEY); try reflexivity.
+    destruct (zlen k >? MAXKEY); [reflexivity|].
+    destruct (put_meta id OFF_KEY (zlen k) _ s2) as [[[]|e|] s3]; reflexivity.
+  - reflexivity.
+Qed.
+
+Lemma write_head_ok s id t ks :
+  geom s -> 0 <= id < nm s -> key_fits ks ->
+  exists sm, write_head id t ks s = (COk tt, sm) /\
+             meta sm id = key_apply ks (with_type_deadline (meta s id) t NOT_FREE) /\ frame_meta s sm id.
+Proof.
+  intros G Hid Hk. unfold write_head, bindM.
+  rewrite put_meta_ok by (auto; cs; lia).
+  set (s1 := set_meta s id _).
+  assert (G1 : geom s1) by (apply geom_set_meta; exact G).
+  assert (N1 : nm s1 = nm s) by reflexivity.
+  destruct ks as [|k|k|k1 k2]; cbn [key_fits] in Hk; try contradiction.
+  - unfold retM. eexists. split; [reflexivity|]. split.
+    + subst s1. cbn [meta set_meta key_apply]. rewrite upd_eq. reflexivity.
+    + unfold frame_meta. subst s1. cbn. repeat split; try reflexivity.
+      intros j Hj. rewrite !upd_neq by assumption. reflexivity.
+  - assert (Hzk : 0 <= zlen k) by (unfold zlen; lia).
+    rewrite put_meta_ok by (auto; cs; lia).
+    eexists. split; [reflexivity|]. split.
+    + cbn [meta set_meta key_apply]. rewrite upd_eq. subst s1. cbn [meta set_meta]. rewrite upd_eq. reflexivity.
+    + unfold frame_meta. subst s1. cbn. repeat split; try reflexivity.
+      intros j Hj. rewrite !upd_neq by assumption. reflexivity.
+  - assert (Hzk : 0 <= zlen k) by (unfold zlen; lia).
+    unfold readM. rewrite meta_access_ok by (auto; cs; lia).
+    replace (zlen k >? MAXKEY) with false by (cs; lia).
+    rewrite put_meta_ok by (auto; cs; lia).
+    eexists. split; [reflexivity|]. split.
+    + cbn [meta set_meta key_apply]. rewrite upd_eq. subst s1. cbn [meta set_meta]. rewrite upd_eq. reflexivity.
+    + unfold frame_meta. subst s1. cbn. repeat split; try reflexivity.
+      intros j Hj. rewrite !upd_neq by assumption. reflexivity.
+Qed.
+
+(* a metadata access depends on the state only through the slot count and the record it returns *)
+Lemma meta_access_cong s s1 id fo len :
+  nm s1 = nm s -> meta_access s1 id fo len = (_ <~ meta_access s id fo len ;; COk (meta s1 id)).
+Proof.
+  intros E. unfold meta_access, mcap. rewrite E.
+  destruct (metadata_offset id); try reflexivity. cbn [bindC].
+  destruct (iadd a fo); try reflexivity. cbn [bindC].
+  destruct (bcheck (nm s * ML) a0 len); reflexivity.
+Qed.
+Lemma meta_access_val s id fo len r : meta_access s id fo len = COk r -> r = meta s id.
+Proof.
+  unfold meta_access.
+  destruct (metadata_offset id); try discriminate. cbn [bindC].
+  destruct (iadd a fo); try discriminate. cbn [bindC].
+  destruct (bcheck (mcap s) a0 len); try discriminate. cbn [bindC]. congruence.
+Qed.
